@@ -30,7 +30,10 @@ impl InnerFunctionManager {
                         min = Some(num);
                     }
                 }
-                Ok(Value::Number(min.unwrap()))
+                match min {
+                    Some(num) => Ok(Value::Number(num)),
+                    None => Err(Error::ParamInvalid()),
+                }
             }),
         );
 
@@ -44,7 +47,10 @@ impl InnerFunctionManager {
                         max = Some(num);
                     }
                 }
-                Ok(Value::Number(max.unwrap()))
+                match max {
+                    Some(num) => Ok(Value::Number(num)),
+                    None => Err(Error::ParamInvalid()),
+                }
             }),
         );
 
